@@ -175,4 +175,475 @@ theorem Post.refl {repl0 : Node} {st : RState} {same hole : Prop} (hs : same) : 
   ph := id
   main := fun _ hr hc _ _ => ⟨hc, .inl ⟨hr, hs⟩⟩
 
+/-! ## `visit_FunctionDef` -/
+
+theorem conv_step {repl0 repl : Node} {r : Arg} (hc : Conv repl0 repl) (hr : asArg repl = some r) :
+    Conv repl0 (.arg r) ∧ asArg repl0 = some r := by
+  rcases hc with h | ⟨r0, h0, h1⟩
+  · subst h; exact ⟨.inr ⟨r, hr, rfl⟩, hr⟩
+  · subst h1
+    have : r0 = r := by simpa [asArg] using hr
+    subst this
+    exact ⟨.inr ⟨r0, h0, rfl⟩, h0⟩
+
+/-- `visit_FunctionDef` does nothing on a function that is not at `search[:-1]`, once replaced, or after an exception -/
+theorem visitFn_skip {search : Loc} {parent : Option String} {st : RState} {name : String} {a : Args}
+    (hc : (st.replaced || st.err.isSome || (parent.toList ++ [name] != search.dropLast)) = true) :
+    visitFn search parent st name a = (a, st) := by
+  unfold visitFn; simp only [hc, if_true]
+
+/-- … and otherwise: default transfer + conversion (`prepare`), then the scan of `args` and `kwonlyargs` -/
+theorem visitFn_go {search : Loc} {parent : Option String} {st : RState} {name : String} {a : Args}
+    (hc : ¬ (st.replaced || st.err.isSome || (parent.toList ++ [name] != search.dropLast)) = true) :
+    visitFn search parent st name a =
+      match asArg st.repl with
+      | none => (a, { st with err := some .assertion })
+      | some r =>
+        let loc := parent.toList ++ [name]
+        let p := prepare loc a st.repl
+        let ra := replaceFirst loc search r p.args.args
+        let rk := replaceFirst loc search r p.args.kwonly
+        ({ p.args with args := ra.1, kwonly := rk.1 },
+         { st with repl := .arg r, replaced := ra.2 || rk.2, poisoned := st.poisoned || p.poisoned,
+                   phantom := st.phantom || (p.touched && !(ra.2 || rk.2)) }) := by
+  unfold visitFn; simp only [hc, prepare_repl]; rfl
+
+theorem visitFn_post (search : Loc) (repl0 : Node) (parent : Option String) (st : RState) (name : String) (a : Args) :
+    Post repl0 st (visitFn search parent st name a).2 ((visitFn search parent st name a).1 = a)
+      (∃ r, asArg repl0 = some r ∧ ArgsChange (parent.toList ++ [name]) search r a (visitFn search parent st name a).1) := by
+  by_cases hc : (st.replaced || st.err.isSome || (parent.toList ++ [name] != search.dropLast)) = true
+  · rw [visitFn_skip hc]; exact Post.refl rfl
+  · rw [visitFn_go hc]
+    have hrep : st.replaced = false := by
+      cases h : st.replaced with
+      | false => rfl
+      | true => simp [h] at hc
+    have herr : st.err = none := by
+      cases h : st.err with
+      | none => rfl
+      | some e => simp [h] at hc
+    cases hr : asArg st.repl with
+    | none =>
+      exact { err := fun h => absurd herr h, rep := fun h => (by rw [hrep] at h; cases h), ph := fun h => h,
+              main := fun _ _ _ h _ => (by cases h) }
+    | some r =>
+      simp only []
+      obtain ⟨ds, hlen, hargs, hunt⟩ := prepare_args (parent.toList ++ [name]) a st.repl
+      generalize hp : prepare (parent.toList ++ [name]) a st.repl = p at *
+      have hA := replaceFirst_spec (parent.toList ++ [name]) search r p.args.args
+      have hK := replaceFirst_spec (parent.toList ++ [name]) search r p.args.kwonly
+      have hCA := replaceFirst_change (parent.toList ++ [name]) search r p.args.args
+      have hCK := replaceFirst_change (parent.toList ++ [name]) search r p.args.kwonly
+      generalize hra : replaceFirst (parent.toList ++ [name]) search r p.args.args = ra at *
+      generalize hrk : replaceFirst (parent.toList ++ [name]) search r p.args.kwonly = rk at *
+      refine { err := fun h => absurd herr h, rep := fun h => (by rw [hrep] at h; cases h), ph := fun h => (by simp [h]), main := ?_ }
+      intro _ _ hconv _ hph
+      obtain ⟨hc1, hr0⟩ := conv_step hconv hr
+      refine ⟨hc1, ?_⟩
+      simp only [] at hph ⊢
+      cases hb1 : ra.2 <;> cases hb2 : rk.2
+      · left
+        have htouched : p.touched = false := by
+          cases h : p.touched with
+          | false => rfl
+          | true => simp [h, hb1, hb2] at hph
+        refine ⟨by simp, ?_⟩
+        rw [hA.1 hb1, hK.1 hb2, hargs, hunt htouched]
+      all_goals
+        right
+        refine ⟨by simp, r, hr0, ?_⟩
+        rw [hargs] at hCA hCK ⊢
+        exact ⟨rfl, rfl, rfl, rfl, hlen, hCA, hCK⟩
+
+/-! ## `generic_visit` -/
+
+theorem ListChange.cons {fnLoc search : Loc} {r : Arg} {l l' : List Arg} (x : Arg) (h : ListChange fnLoc search r l l') :
+    ListChange fnLoc search r (x :: l) (x :: l') := by
+  rcases h with h | ⟨j, y, hj, hy, he⟩
+  · exact .inl (by rw [h])
+  · exact .inr ⟨j + 1, y, by simpa using hj, hy, by simp [he]⟩
+
+theorem conv_arg {repl0 : Node} {r : Arg} (hc : Conv repl0 (.arg r)) : asArg repl0 = some r := by
+  rcases hc with h | ⟨r0, h0, h1⟩
+  · rw [← h]; rfl
+  · cases h1; exact h0
+
+theorem visitAsyncArgs_post (fnLoc search : Loc) (repl0 : Node) (st : RState) (l : List Arg) :
+    Post repl0 st (visitAsyncArgs fnLoc search st l).2 ((visitAsyncArgs fnLoc search st l).1 = l)
+      (∃ r, asArg repl0 = some r ∧ ListChange fnLoc search r l (visitAsyncArgs fnLoc search st l).1) := by
+  induction l with
+  | nil => unfold visitAsyncArgs; exact Post.refl rfl
+  | cons x xs ih =>
+    unfold visitAsyncArgs
+    by_cases hc : (!st.replaced && st.err.isNone && fnLoc ++ [x.name] == search) = true
+    · rw [if_pos hc]
+      have hrep : st.replaced = false := by
+        cases h : st.replaced with
+        | false => rfl
+        | true => simp [h] at hc
+      have herr : st.err = none := by
+        cases h : st.err with
+        | none => rfl
+        | some e => simp [h] at hc
+      have hloc : fnLoc ++ [x.name] = search := by
+        simp only [Bool.and_eq_true, beq_iff_eq] at hc; exact hc.2
+      cases hr : st.repl with
+      | arg r =>
+        simp only []
+        refine { err := fun h => absurd herr h, rep := fun h => (by rw [hrep] at h; cases h), ph := fun h => h, main := ?_ }
+        intro _ _ hconv _ _
+        rw [hr] at hconv
+        exact ⟨hconv, .inr ⟨rfl, r, conv_arg hconv, .inr ⟨0, x, by simp, hloc, by simp⟩⟩⟩
+      | stmt s =>
+        simp only []
+        exact { err := fun h => absurd herr h, rep := fun h => (by rw [hrep] at h; cases h), ph := fun h => h,
+                main := fun _ _ _ h _ => (by cases h) }
+    · rw [if_neg hc]
+      exact ih.mono (fun h => by simp only []; rw [h]) (fun ⟨r, hr, hch⟩ => ⟨r, hr, hch.cons x⟩)
+
+theorem hit_iff {search : Loc} {parent : Option String} {st : RState} {s : Stmt} :
+    hit search parent st s = true ↔ st.replaced = false ∧ st.err = none ∧ locOf parent s = some search := by
+  unfold hit
+  cases st.replaced <;> cases st.err <;> simp
+
+theorem hit_false_of_replaced {search : Loc} {parent : Option String} {st : RState} {s : Stmt} (h : st.replaced = true) :
+    hit search parent st s = false := by
+  unfold hit; simp [h]
+
+theorem place_post (search : Loc) (repl0 : Node) (parent : Option String) (argOk : Bool) (st : RState) (s : Stmt)
+    (hh : hit search parent st s = true) :
+    Post repl0 st (place argOk st).2 ((place argOk st).1 = s) (OneHoleS (Slot search repl0) parent s (place argOk st).1) := by
+  obtain ⟨hrep, herr, hloc⟩ := hit_iff.mp hh
+  unfold place
+  refine { err := fun h => absurd herr h, rep := fun h => (by rw [hrep] at h; cases h), ph := fun h => h, main := ?_ }
+  intro _ _ hconv _ _
+  exact ⟨hconv, .inr ⟨rfl, .here (.inl ⟨hloc, argOk, st.repl, hconv, rfl⟩)⟩⟩
+
+mutual
+/-- invariant of `NodeTransformer.visit` on one statement -/
+theorem visit_post (search : Loc) (repl0 : Node) (parent : Option String) (argOk : Bool) (st : RState) : (s : Stmt) →
+    Post repl0 st (visit search parent argOk st s).2 ((visit search parent argOk st s).1 = s)
+      (OneHoleS (Slot search repl0) parent s (visit search parent argOk st s).1)
+  | .fn false name a body ds ret => by
+    rw [visit]
+    exact (visitFn_post search repl0 parent st name a).mono (fun h => by simp only []; rw [h])
+      (fun ⟨r, hr, hc⟩ => .here (.inr ⟨false, name, a, _, body, ds, ret, r, rfl, rfl, hr, hc⟩))
+  | .fn true name a body ds ret => by
+    rw [visit]
+    by_cases hh : hit search parent st (.fn true name a body ds ret) = true
+    · rw [if_pos hh]; exact place_post search repl0 parent argOk st _ hh
+    · rw [if_neg hh]
+      simp only []
+      have h1 := visitAsyncArgs_post (parent.toList ++ [name]) search repl0 st a.args
+      have h2 := visitAsyncArgs_post (parent.toList ++ [name]) search repl0 (visitAsyncArgs (parent.toList ++ [name]) search st a.args).2 a.kwonly
+      have h3 := visitList_post search repl0 (some name) (body.length == 1)
+        (visitAsyncArgs (parent.toList ++ [name]) search (visitAsyncArgs (parent.toList ++ [name]) search st a.args).2 a.kwonly).2 body
+      refine ((h1.seq h2).seq h3).mono ?_ ?_
+      · rintro ⟨⟨e1, e2⟩, e3⟩; rw [e1, e2, e3]
+      · rintro (⟨(⟨⟨r, hr, hc⟩, e2⟩ | ⟨e1, ⟨r, hr, hc⟩⟩), e3⟩ | ⟨⟨e1, e2⟩, ho⟩)
+        · rw [e2, e3]
+          exact .here (.inr ⟨true, name, a, _, body, ds, ret, r, rfl, rfl, hr, rfl, rfl, rfl, rfl, rfl, hc, .inl rfl⟩)
+        · rw [e1, e3]
+          exact .here (.inr ⟨true, name, a, _, body, ds, ret, r, rfl, rfl, hr, rfl, rfl, rfl, rfl, rfl, .inl rfl, hc⟩)
+        · rw [e1, e2]; exact .afn ho
+  | .cls n bs ks body ds => by
+    rw [visit]
+    by_cases hh : hit search parent st (.cls n bs ks body ds) = true
+    · rw [if_pos hh]; exact place_post search repl0 parent argOk st _ hh
+    · rw [if_neg hh]
+      exact (visitList_post search repl0 (some n) (body.length == 1) st body).mono (fun h => by simp only []; rw [h]) (fun h => .cls h)
+  | .ann t a v => by
+    rw [visit]
+    by_cases hh : hit search parent st (.ann t a v) = true
+    · rw [if_pos hh]; exact place_post search repl0 parent argOk st _ hh
+    · rw [if_neg hh]; exact Post.refl rfl
+  | .assign ts v => by
+    rw [visit]
+    by_cases hh : hit search parent st (.assign ts v) = true
+    · rw [if_pos hh]; exact place_post search repl0 parent argOk st _ hh
+    · rw [if_neg hh]; exact Post.refl rfl
+  | .strExpr s => by rw [visit]; exact Post.refl rfl
+  | .expr s => by rw [visit]; exact Post.refl rfl
+  | .other s => by rw [visit]; exact Post.refl rfl
+/-- invariant of the traversal of a statement list (module or body) -/
+theorem visitList_post (search : Loc) (repl0 : Node) (parent : Option String) (argOk : Bool) (st : RState) : (ss : List Stmt) →
+    Post repl0 st (visitList search parent argOk st ss).2 ((visitList search parent argOk st ss).1 = ss)
+      (OneHole (Slot search repl0) parent ss (visitList search parent argOk st ss).1)
+  | [] => by rw [visitList]; exact Post.refl rfl
+  | s :: ss => by
+    rw [visitList]
+    simp only []
+    refine ((visit_post search repl0 parent argOk st s).seq
+      (visitList_post search repl0 parent false (visit search parent argOk st s).2 ss)).mono ?_ ?_
+    · rintro ⟨e1, e2⟩; rw [e1, e2]
+    · rintro (⟨ho, e2⟩ | ⟨e1, ho⟩)
+      · rw [e2]; exact .head ho
+      · rw [e1]; exact .tail ho
+end
+
+/-! ## parameter / default alignment -/
+
+theorem annotFrom_find (fnLoc : Loc) (t : String) : ∀ (l : List Arg) (i : Int),
+    ((annotFrom fnLoc i l).find? (·.arg.name == t)).map (·.idx) = (l.findIdx? (·.name == t)).map (fun (j : Nat) => i + (j : Int))
+  | [], _ => by simp [annotFrom]
+  | x :: xs, i => by
+    unfold annotFrom
+    rw [List.find?_cons, List.findIdx?_cons]
+    by_cases h : (x.name == t) = true
+    · simp [h]
+    · simp only [h]
+      rw [annotFrom_find fnLoc t xs (i + 1)]
+      cases xs.findIdx? (·.name == t) with
+      | none => simp
+      | some j => simp; omega
+
+/-- `_idx` of the first parameter named `t`: its position minus one when the function starts with `self`/`cls` -/
+theorem idxOfName_eq (fnLoc : Loc) (a : Args) (t : String) :
+    idxOfName fnLoc a t = (a.args.findIdx? (·.name == t)).map (fun (j : Nat) => (j : Int) - selfOffset a) := by
+  unfold idxOfName annotArgs
+  rw [annotFrom_find]
+  cases a.args.findIdx? (·.name == t) with
+  | none => rfl
+  | some j => simp; omega
+
+/-- the `self`/`cls` offset of `_idx` cancels: the index into `defaults` is the position of the parameter minus the
+    number of parameters without default — CPython's right alignment — with or without a leading `self`/`cls` -/
+theorem defaultIndex_of_position (a : Args) (j : Nat) :
+    defaultIndex a ((j : Int) - selfOffset a) = (j : Int) - ((a.args.length : Int) - (a.defaults.length : Int)) := by
+  unfold defaultIndex; omega
+
+/-- which entry of `defaults` `visit_FunctionDef` may overwrite: none, or the one right-aligned with the first
+    parameter that has the input's name — and only when the input is an annotated assignment with a value -/
+theorem prepare_alignment (fnLoc : Loc) (a : Args) (node : Node) :
+    (prepare fnLoc a node).args.defaults = a.defaults ∨
+    ∃ t ann val j, ∃ k : Nat, node = .stmt (.ann t ann (some val)) ∧ a.args.findIdx? (·.name == t) = some j ∧
+      (k : Int) = (j : Int) - ((a.args.length : Int) - (a.defaults.length : Int)) ∧ k < a.defaults.length ∧
+      (prepare fnLoc a node).args.defaults = a.defaults.set k val := by
+  unfold prepare
+  split
+  · rename_i t ann val
+    rw [idxOfName_eq]
+    cases hj : a.args.findIdx? (·.name == t) with
+    | none => left; rfl
+    | some j =>
+      simp only [Option.map_some]
+      rw [defaultIndex_of_position]
+      split
+      · rename_i hr
+        right
+        simp only [inRange, Bool.and_eq_true, decide_eq_true_eq] at hr
+        refine ⟨t, ann, val, j, ((j : Int) - ((a.args.length : Int) - (a.defaults.length : Int))).toNat, rfl, hj, ?_, ?_, rfl⟩
+        · omega
+        · omega
+      · left; rfl
+  · split
+    · split <;> (left; rfl)
+    · left; rfl
+  · left; rfl
+
+theorem replaceFirst_findIdx (fnLoc search : Loc) (r : Arg) : ∀ l : List Arg,
+    (replaceFirst fnLoc search r l).1 =
+      match l.findIdx? (fun x => fnLoc ++ [x.name] == search) with
+      | some j => l.set j r
+      | none => l
+  | [] => by simp [replaceFirst]
+  | x :: xs => by
+    unfold replaceFirst
+    rw [List.findIdx?_cons]
+    by_cases h : (fnLoc ++ [x.name] == search) = true
+    · simp [h]
+    · simp only [h]
+      rw [replaceFirst_findIdx fnLoc search r xs]
+      cases xs.findIdx? (fun x => fnLoc ++ [x.name] == search) with
+      | none => simp
+      | some j => simp
+
+/-- CPython's alignment (`PyAst.Args.positionalDefault?`): the default of the `j`-th of `args` is `defaults[k]`
+    for `k = j - (len(args) - len(defaults))`, on a well-formed signature -/
+theorem positionalDefault_eq (a : Args) (j k : Nat) (hj : j < a.args.length)
+    (hwf : a.defaults.length ≤ a.posonly.length + a.args.length)
+    (hk : (k : Int) = (j : Int) - ((a.args.length : Int) - (a.defaults.length : Int))) :
+    a.positionalDefault? (a.posonly.length + j) = a.defaults[k]? := by
+  unfold Args.positionalDefault?
+  simp only []
+  have h1 : a.posonly.length + j < a.posonly.length + a.args.length := by omega
+  have h2 : a.posonly.length + a.args.length - a.defaults.length ≤ a.posonly.length + j := by omega
+  rw [if_pos ⟨h1, h2⟩]
+  congr 1
+  omega
+
+/-! ## `find_in_ast` -/
+
+/-- module-level statements `find_in_ast` passes over unharmed while it looks for the class named `c`:
+    NOT a `FunctionDef` (each one consumes a component of the query), not an annotated variable named `c`,
+    not another definition named `c` -/
+def passesTop (c : String) : Stmt → Bool
+  | .fn false _ _ _ _ _ => false
+  | .fn true n _ _ _ _ => n != c
+  | .cls n _ _ _ _ => n != c
+  | .ann t _ _ => !(isNameText t && t == c)
+  | _ => true
+
+/-- statements of the class body passed over while it looks for the attribute `x`: nothing else named `x`,
+    and no method with a parameter named `x` (that parameter would be returned instead) -/
+def passesBody (x : String) : Stmt → Bool
+  | .fn false n a _ _ _ => n != x && (a.args.find? (·.name == x)).isNone
+  | .fn true n _ _ _ _ => n != x
+  | .cls n _ _ _ _ => n != x
+  | .ann t _ _ => !(isNameText t && t == x)
+  | .assign ts _ => !(ts.all isNameText && ts.getLast? == some x)
+  | _ => true
+
+theorem locOf_none_ne (s : Stmt) (c x : String) : (locOf none s == some [c, x]) = false := by
+  unfold locOf
+  cases ownName? s <;> simp
+
+theorem forLoop_skip_top {c x : String} {s : Stmt} {rest : List Stmt} {last : Option Stmt} {ca : Bool}
+    (h : passesTop c s = true) :
+    forLoop [c, x] none (s :: rest) c [x] last ca = forLoop [c, x] none rest c [x] (some s) ca := by
+  cases s with
+  | fn as n a b d r =>
+    cases as with
+    | false => simp [passesTop] at h
+    | true =>
+      simp only [forLoop, locOf_none_ne]
+      simp only [passesTop, bne_iff_ne, ne_eq] at h
+      simp [Stmt.defName?, h]
+  | cls n bs ks b d =>
+    simp only [forLoop, locOf_none_ne]
+    simp only [passesTop, bne_iff_ne, ne_eq] at h
+    simp [Stmt.defName?, h]
+  | ann t a v =>
+    simp only [forLoop, locOf_none_ne]
+    simp only [passesTop, Bool.not_eq_true'] at h
+    simp [h]
+  | assign ts v => simp only [forLoop, locOf_none_ne]; simp [Stmt.defName?]
+  | strExpr s => simp only [forLoop, locOf_none_ne]; simp [Stmt.defName?]
+  | expr s => simp only [forLoop, locOf_none_ne]; simp [Stmt.defName?]
+  | other s => simp only [forLoop, locOf_none_ne]; simp [Stmt.defName?]
+
+theorem forLoop_top {c x : String} (pre : List Stmt) (cls : Stmt) (post : List Stmt) (hpre : pre.all (passesTop c) = true)
+    (hc : cls.defName? = some c) (hk : ∀ a n g b d r, cls ≠ .fn a n g b d r) :
+    ∀ (last : Option Stmt) (ca : Bool), forLoop [c, x] none (pre ++ cls :: post) c [x] last ca = .brk cls [x] := by
+  induction pre with
+  | nil =>
+    intro last ca
+    cases cls with
+    | cls n bs ks b d =>
+      simp only [Stmt.defName?, Option.some.injEq] at hc
+      simp only [List.nil_append, forLoop, locOf_none_ne]
+      simp [Stmt.defName?, hc]
+    | fn a n g b d r => exact absurd rfl (hk a n g b d r)
+    | _ => simp [Stmt.defName?] at hc
+  | cons s ss ih =>
+    intro last ca
+    simp only [List.all_cons, Bool.and_eq_true] at hpre
+    rw [List.cons_append, forLoop_skip_top hpre.1]
+    exact ih hpre.2 _ _
+
+theorem locOf_body_ne {c x : String} {s : Stmt} (h : passesBody x s = true) : (locOf (some c) s == some [c, x]) = false := by
+  unfold locOf
+  cases s with
+  | fn as n a b d r =>
+    cases as <;> simp_all [passesBody, ownName?]
+  | cls n bs ks b d => simp_all [passesBody, ownName?]
+  | ann t a v =>
+    simp only [passesBody, Bool.not_eq_true', Bool.and_eq_false_iff] at h
+    simp only [ownName?]
+    split
+    · rename_i hn
+      rcases h with h | h
+      · rw [hn] at h; cases h
+      · simpa using h
+    · simp
+  | assign ts v =>
+    simp only [passesBody, Bool.not_eq_true', Bool.and_eq_false_iff] at h
+    simp only [ownName?]
+    split
+    · rename_i hn
+      rcases h with h | h
+      · rw [hn] at h; cases h
+      · cases hl : ts.getLast? with
+        | none => simp
+        | some y => simp [hl] at h ⊢; exact h
+    · simp
+  | strExpr s => simp [ownName?]
+  | expr s => simp [ownName?]
+  | other s => simp [ownName?]
+
+theorem forLoop_skip_body {c x : String} {s : Stmt} {rest : List Stmt} {last : Option Stmt} {ca : Bool}
+    (h : passesBody x s = true) :
+    forLoop [c, x] (some c) (s :: rest) x [] last ca = forLoop [c, x] (some c) rest x [] (some s) ca := by
+  have hl := locOf_body_ne (c := c) h
+  cases s with
+  | fn as n a b d r =>
+    cases as with
+    | false =>
+      simp only [forLoop, hl]
+      simp only [passesBody, Bool.and_eq_true, Option.isNone_iff_eq_none] at h
+      simp [h.2]
+    | true =>
+      simp only [forLoop, hl]
+      simp only [passesBody, bne_iff_ne, ne_eq] at h
+      simp [Stmt.defName?, h]
+  | cls n bs ks b d =>
+    simp only [forLoop, hl]
+    simp only [passesBody, bne_iff_ne, ne_eq] at h
+    simp [Stmt.defName?, h]
+  | ann t a v =>
+    simp only [forLoop, hl]
+    simp only [passesBody, Bool.not_eq_true'] at h
+    simp [h]
+  | assign ts v => simp only [forLoop, hl]; simp [Stmt.defName?]
+  | strExpr s => simp only [forLoop, hl]; simp [Stmt.defName?]
+  | expr s => simp only [forLoop, hl]; simp [Stmt.defName?]
+  | other s => simp only [forLoop, hl]; simp [Stmt.defName?]
+
+theorem forLoop_body {c x ann : String} {v : Option String} (bpre bpost : List Stmt) (hx : isNameText x = true)
+    (hpre : bpre.all (passesBody x) = true) :
+    ∀ (last : Option Stmt) (ca : Bool),
+      forLoop [c, x] (some c) (bpre ++ .ann x ann v :: bpost) x [] last ca = .ret (.stmt (.ann x ann v)) := by
+  induction bpre with
+  | nil =>
+    intro last ca
+    simp [forLoop, locOf, ownName?, hx]
+  | cons s ss ih =>
+    intro last ca
+    simp only [List.all_cons, Bool.and_eq_true] at hpre
+    rw [List.cons_append, forLoop_skip_body hpre.1]
+    exact ih hpre.2 _ _
+
+/-- observers with decidable equality, for the concrete witnesses -/
+def foundAnn : Except Err (Option Node) → Option (Option String)
+  | .ok (some (.arg a)) => some a.ann
+  | .ok (some (.stmt (.ann _ a _))) => some (some a)
+  | _ => none
+
+def isOk {α} : Except Err α → Bool
+  | .ok _ => true
+  | .error _ => false
+
+def errOf {α} : Except Err α → Option Err
+  | .ok _ => none
+  | .error e => some e
+
+/-- a decidable view of a signature list: names, annotations and defaults of `args` -/
+def sigView : Stmt → Option (List (String × Option String) × List String)
+  | .fn _ _ a _ _ _ => some (a.args.map (fun x => (x.name, x.ann)), a.defaults)
+  | _ => none
+
+/-! ## reference meaning of a dotted path (what the property's statement calls "the selected input property") -/
+
+/-- `C.x`: the annotated attribute `x` of the first class `C` of the module -/
+def intendedAttr (c x : String) (m : Module) : Option (String × Option String) :=
+  (m.find? fun s => match s with | .cls n _ _ _ _ => n == c | _ => false).bind fun s =>
+    (s.body.findSome? fun t => match t with | .ann t' a v => if t' == x then some (a, v) else none | _ => none)
+
+/-- `f.p`: the parameter `p` of the first function `f` of the module -/
+def intendedParam (f p : String) (m : Module) : Option Arg :=
+  (m.find? fun s => match s with | .fn false n _ _ _ _ => n == f | _ => false).bind fun s =>
+    match s with
+    | .fn _ _ a _ _ _ => a.args.find? (·.name == p)
+    | _ => none
+
 end SyncProps
